@@ -263,6 +263,19 @@ type Scenario struct {
 }
 
 var registry = map[string]*Scenario{}
+var extras = map[string][]func(c *Ctx){}
+
+// RegisterExtra adds a further stage to a property's scenario (run after its main Run), so that
+// transport-level stages can live in their own files.
+func RegisterExtra(prop string, f func(c *Ctx)) { extras[prop] = append(extras[prop], f) }
+
+// RunAll runs the main scenario and its extra stages.
+func (s *Scenario) RunAll(prop string, c *Ctx) {
+	s.Run(c)
+	for _, f := range extras[prop] {
+		f(c)
+	}
+}
 
 func Register(prop string, s *Scenario) { registry[prop] = s }
 func Lookup(prop string) *Scenario      { return registry[prop] }
